@@ -10,7 +10,7 @@
                             length beyond the data present: same as reading to the end of the stream. *)
 From Coq Require Import List Arith NArith ZArith Bool Strings.Byte Lia ZifyBool.
 From Coq Require Strings.String.
-From DX Require Import Bytes Res Codec Text Sections Header Stream Json Reader StreamFacts SectionsFacts.
+From DX Require Import Bytes Res Codec Text Sections Header Stream Json Reader SectionsSpec StreamFacts SectionsFacts.
 From DXGen Require GenSections GenText.
 Import ListNotations.
 Import String.StringSyntax.
@@ -892,6 +892,21 @@ Proof.
   rewrite firstn_skipn in H. exact H.
 Qed.
 
+(* full statement = partial theorem + absence of the finding's signature: if no iteration of the truncated run is a
+   short read, the truncated file's records are a plain prefix of the intact file's records *)
+Corollary truncation_without_short_read : forall orc chunk data k,
+  0 < chunk -> k <= List.length data ->
+  (forall st valid encs prev r,
+      reachable orc chunk (firstn k data) st valid encs prev -> ~ short_read orc chunk st valid encs prev r) ->
+  prefix (fst (read_all orc chunk (firstn k data))) (fst (read_all orc chunk data)).
+Proof.
+  intros orc chunk data k Hc Hk Hno.
+  destruct (truncation_partial orc chunk data k Hc Hk) as (rs1 & extra & H1 & H2 & H3 & H4 & _).
+  destruct extra as [|r [|r2 extra]]; [rewrite H1, app_nil_r; exact H2| |cbn in H3; lia].
+  exfalso. destruct (H4 r eq_refl) as (_ & _ & (st & valid & encs & prev & Hre & Hsr) & _).
+  exact (Hno _ _ _ _ _ Hre Hsr).
+Qed.
+
 (* termination of the truncated run, given that no exception other than DiffXParseError escapes (property C08) *)
 Corollary truncation_termination : forall orc chunk data k,
   0 < chunk ->
@@ -902,4 +917,132 @@ Proof.
   intros orc chunk data k Hc Hne. pose proof (read_all_no_fuel orc chunk (firstn k data) Hc) as Hnf.
   destruct (snd (read_all orc chunk (firstn k data))) as [|l c|e|]; [left; reflexivity|right; eauto| |contradiction].
   exfalso. exact (Hne e eq_refl).
+Qed.
+
+(* what the extra record is made of: ALL the bytes the truncated file still had after the section's header line,
+   which are a prefix — proper when anything was cut off — of the bytes the intact file gives that section *)
+Lemma short_read_payload : forall orc chunk st valid encs prev r,
+  short_read orc chunk st valid encs prev r ->
+  exists level name id opts line st1 n,
+    read_header chunk valid st = HdrOk level name id opts line st1 /\
+    opt_get "length" opts = Some (VInt n) /\
+    let c := remaining (st_stream st1) in
+    List.length c < take_len n /\
+    exists enc ind keep p0,
+      content_payload c enc ind (opt_get "line_endings" opts) keep = Some p0 /\
+      (r_payload r = p0 \/
+       exists j, r_payload r = PMeta j /\ assoc_get beq (oracle_key p0) orc = Some (LoadsOk j)).
+Proof.
+  intros orc chunk st valid encs prev r (level & name & id & opts & line & st1 & n & st' & v & e & p &
+                                         Hh & Hc & Hl & Hs & Hy & _).
+  exists level, name, id, opts, line, st1, n. split; [exact Hh|]. split; [exact Hl|]. cbv zeta. split; [exact Hs|].
+  destruct (iter_step_framing _ _ _ _ _ _ _ _ _ _ _ _ _ _ _ _ _ _ Hh Hc Hl Hy) as (_ & _ & _ & _ & P).
+  rewrite firstn_all2 in P by lia. exact P.
+Qed.
+
+Lemma short_content_is_prefix : forall (c d2 : bytes) n,
+  List.length c < n ->
+  exists t, firstn n (c ++ d2) = c ++ t /\ (d2 <> [] -> t <> []).
+Proof.
+  intros c d2 n H. exists (firstn (n - List.length c) d2). rewrite firstn_app, firstn_all2 by lia.
+  split; [reflexivity|]. intros Hd. destruct d2 as [|b d2]; [contradiction|].
+  destruct (n - List.length c) as [|m] eqn:E; [lia|]. discriminate.
+Qed.
+
+(* ------------------------------------------------------------------------------------------------ *)
+(* 5. Examples: the hypotheses of the theorems are satisfiable on concrete, non-trivial instances    *)
+(* ------------------------------------------------------------------------------------------------ *)
+
+(* framing: a preamble whose 21 bytes of content look like a section header followed by a NUL line; the reader takes
+   them as text and finds the next real header right after *)
+Definition c07_lookalike : bytes :=
+  B "#diffx: encoding=utf-8, version=1.0" ++ c07_nl ++
+  B "#.preamble: length=21" ++ c07_nl ++
+  B "#.meta: length=999" ++ c07_nl ++ [x00] ++ c07_nl ++
+  B "#.change:" ++ c07_nl.
+
+Example framing_ex :
+  map r_id (fst (read_all [] default_chunk c07_lookalike)) = [B "diffx"; B ".preamble"; B ".change"] /\
+  snd (read_all [] default_chunk c07_lookalike) = TEnd /\
+  (exists r, nth_error (fst (read_all [] default_chunk c07_lookalike)) 1 = Some r /\
+             Some (r_payload r) = content_payload (B "#.meta: length=999" ++ c07_nl ++ [x00] ++ c07_nl)
+                                                  (Some (VStr (B "utf-8"))) None None false).
+Proof.
+  split; [vm_compute; reflexivity|]. split; [vm_compute; reflexivity|].
+  eexists. split; vm_compute; reflexivity.
+Qed.
+
+(* the state of the loop after the main header of c07_file, about to read "#.preamble: length=6" *)
+Definition c07_st (data : bytes) (pos : nat) : rstate :=
+  {| st_stream := {| s_data := data; s_pos := pos |}; st_linenum := 1; st_fnl := Some [lf] |}.
+
+Example iter_step_framing_ex :
+  exists level name id opts line st1 r st' v e p,
+    read_header default_chunk (table Main) (c07_st c07_file 36) = HdrOk level name id opts line st1 /\
+    is_content id = true /\ opt_get "length" opts = Some (VInt 6) /\
+    iter_step [] default_chunk (c07_st c07_file 36) (table Main) [Some (VStr (B "utf-8")); None] 0 = SYield r st' v e p /\
+    s_pos (st_stream st1) = 57 /\ s_pos (st_stream st') = 57 + 6 /\ r_payload r = PText [97; 98; 10; 99; 100; 10]%N.
+Proof. do 11 eexists. repeat split; vm_compute; reflexivity. Qed.
+
+(* prefix determinism: the first iteration over c07_file ends at byte 36, inside the first 40 bytes: it is the same
+   over those 40 bytes alone *)
+Definition c07_st0 (d : bytes) : rstate :=
+  {| st_stream := {| s_data := d; s_pos := 0 |}; st_linenum := 0%Z; st_fnl := None |}.
+
+Example prefix_determinism_ex :
+  exists r stF' v e p st',
+    wf_rstate (c07_st0 (firstn 40 c07_file)) /\
+    iter_step [] default_chunk (lift (skipn 40 c07_file) (c07_st0 (firstn 40 c07_file))) [GenSections.sec_main] [None] 0
+      = SYield r stF' v e p /\
+    s_pos (st_stream stF') = 36 /\ 36 <= List.length (s_data (st_stream (c07_st0 (firstn 40 c07_file)))) /\
+    iter_step [] default_chunk (c07_st0 (firstn 40 c07_file)) [GenSections.sec_main] [None] 0 = SYield r st' v e p /\
+    stF' = lift (skipn 40 c07_file) st'.
+Proof.
+  do 6 eexists. split; [apply wf_initial|]. split; [vm_compute; reflexivity|]. split; [reflexivity|].
+  split; [vm_compute; lia|]. split; vm_compute; reflexivity.
+Qed.
+
+Example truncation_partial_ex :
+  exists rs1 r r',
+    fst (read_all [] default_chunk (firstn 60 c07_file)) = rs1 ++ [r] /\
+    prefix rs1 (fst (read_all [] default_chunk c07_file)) /\ List.length rs1 = 1 /\
+    nth_error (fst (read_all [] default_chunk c07_file)) 1 = Some r' /\ hdr_eq r r' /\
+    r_payload r <> r_payload r' /\
+    (* every other proper cut point (0..62) of this file gives a plain prefix: at most the main record *)
+    forallb (fun k => Nat.eqb k 60 ||
+               Nat.leb (List.length (fst (read_all [] default_chunk (firstn k c07_file)))) 1) (seq 0 63) = true.
+Proof.
+  eexists [_], _, _. cbn [app]. split; [vm_compute; reflexivity|]. split; [eexists; vm_compute; reflexivity|].
+  split; [reflexivity|]. split; [vm_compute; reflexivity|]. split; [repeat split|].
+  split; [cbn; discriminate|vm_compute; reflexivity].
+Qed.
+
+(* bad lengths *)
+Definition c07_bad (v : String.string) : bytes :=
+  B "#diffx: encoding=utf-8, version=1.0" ++ c07_nl ++
+  B "#.preamble: length=" ++ B v ++ c07_nl ++ B "ab" ++ c07_nl ++ B "cd" ++ c07_nl.
+
+Example bad_length_ex :
+  (* hypotheses of bad_length_neg / bad_length_str hold in the state after the main header *)
+  step_inv (table Main) [Some (VStr (B "utf-8")); None] 0 /\
+  (exists level name id opts line st1,
+     read_header default_chunk (table Main) (c07_st (c07_bad "-1") 36) = HdrOk level name id opts line st1 /\
+     is_content id = true /\ opt_get "length" opts = Some (VInt (-1))) /\
+  (exists level name id opts line st1,
+     read_header default_chunk (table Main) (c07_st (c07_bad "abc") 36) = HdrOk level name id opts line st1 /\
+     is_content id = true /\ opt_get "length" opts = Some (VStr (B "abc"))) /\
+  (* and the whole run: the main header is yielded, then DiffXParseError at line 1, for -1, abc, 1_0 *)
+  map r_id (fst (read_all [] default_chunk (c07_bad "-1"))) = [B "diffx"] /\
+  snd (read_all [] default_chunk (c07_bad "-1")) = TParse 1 None /\
+  read_all [] default_chunk (c07_bad "abc") = read_all [] default_chunk (c07_bad "-1") /\
+  read_all [] default_chunk (c07_bad "1_0") = read_all [] default_chunk (c07_bad "-1") /\
+  (* length beyond the data: as if the 6 bytes present had been declared, up to the option value itself *)
+  map r_payload (fst (read_all [] default_chunk (c07_bad "7"))) =
+  map r_payload (fst (read_all [] default_chunk (c07_bad "6"))) /\
+  snd (read_all [] default_chunk (c07_bad "7")) = TEnd.
+Proof.
+  split; [right; exists Main; repeat split; vm_compute; reflexivity|].
+  split; [do 6 eexists; repeat split; vm_compute; reflexivity|].
+  split; [do 6 eexists; repeat split; vm_compute; reflexivity|].
+  repeat split; vm_compute; reflexivity.
 Qed.
